@@ -143,17 +143,19 @@ class _Exec:
         # the instance's lock, whatever it is called: the attribute holding a lock-like object
         locks = [k for k, v in vars(self.obj).items()
                  if hasattr(v, "acquire") and hasattr(v, "release") and hasattr(v, "__enter__")]
-        if len(locks) != 1:
-            raise Machinery(f"expected exactly one lock attribute on the component, found {locks}")
-        self.lock_attr = locks[0]
-        setattr(self.obj, self.lock_attr, SchedLock(self.sched))
+        if not locks:
+            raise Machinery("the component has no lock attribute to put under scheduler control")
+        self.lock_attrs = locks          # every lock of the component is scheduler-controlled
+        for k in locks:
+            setattr(self.obj, k, SchedLock(self.sched))
         self.setup_deadlock = False
         try:
             for op in setup:
                 self.apply(op)
         except Deadlock:
             self.setup_deadlock = True
-            setattr(self.obj, self.lock_attr, SchedLock(self.sched))
+            for k in self.lock_attrs:
+                setattr(self.obj, k, SchedLock(self.sched))
 
     def apply(self, op: dict) -> dict:
         self.now = op["t"]
@@ -193,7 +195,8 @@ class _Exec:
         final: dict = {}
         deadlock = deadlock or self.setup_deadlock
         if not deadlock:
-            setattr(self.obj, self.lock_attr, SchedLock(sched))     # fresh, uncontended, for the observation
+            for k in self.lock_attrs:     # fresh, uncontended, for the observation
+                setattr(self.obj, k, SchedLock(sched))
             tmax = max([op["t"] for p in self.programs for op in p] + [op["t"] for op in self.setup] + [0])
             try:
                 if self.comp == "breaker":
